@@ -8,6 +8,11 @@ import (
 
 func evalIdent(ident *ast.Ident, env *object.Env) object.PanObject {
 	val, ok := env.Get(object.GetSymHash(ident.Value))
+	// NOTE: arg idents (`\1`, `\a`) refer only args of the current call
+	// (otherwise args of the enclosing func leak into a func called with fewer args)
+	if ident.IdentAttr == ast.ArgIdent || ident.IdentAttr == ast.KwargIdent {
+		val, ok = env.Store[object.GetSymHash(ident.Value)]
+	}
 
 	if !ok {
 		err := object.NewNameErr(
